@@ -4,6 +4,10 @@ open Model
 open Drvlib
 
 let split_on c s = String.split_on_char c s
+let find_sub (s : string) (p : string) : int =
+  let n = String.length p in
+  let rec go i = if i + n > String.length s then -1 else if String.sub s i n = p then i else go (i + 1) in
+  go 0
 let dec_n n = dec_of_n n
 let nlist s f = if s = "-" || s = "" then [] else List.map f (split_on ',' s)
 
@@ -79,6 +83,16 @@ let string_of_packet (p : packet) : string =
     (if p.p_questions = [] then "-" else
        String.concat "," (List.map (fun (n, t) -> hex_of_bytes n ^ "." ^ dec_n t) p.p_questions))
     (string_of_section p.p_answers) (string_of_section p.p_additionals)
+let string_of_packet_gen (ifs : string) (p : packet) : string =
+  Printf.sprintf "dest=%s;if=%s;id=%s;flags=%s;q=%s;an=%s;ar=%s" (string_of_dest p.p_dest) ifs
+    (dec_n p.p_id) (dec_n p.p_flags)
+    (if p.p_questions = [] then "-" else
+       String.concat "," (List.map (fun (n, t) -> hex_of_bytes n ^ "." ^ dec_n t) p.p_questions))
+    (string_of_section p.p_answers) (string_of_section p.p_additionals)
+let string_of_packet_any (p : packet) : string = string_of_packet_gen "*" p
+let is_goodbye (p : packet) : bool = p.p_answers <> [] && List.for_all (fun r -> r.r_ttl = N0) p.p_answers
+let string_of_packet18 (p : packet) : string =
+  string_of_packet_gen (if is_goodbye p then "*" else if p.p_if = N0 then "?" else dec_n p.p_if) p
 let string_of_reaction = function None -> "none" | Some p -> string_of_packet p
 
 let after (pre : string) (s : string) : string =
@@ -171,20 +185,31 @@ let dgram_of_string (s : string) : dgram =
     let port = match split_on '.' src with [ _; _; p ] -> n_of_dec p | _ -> failwith "src" in
     { dg_if = n_of_dec idx; dg_src = ip_of_string src; dg_port = port; dg_data = bytes_of_hex data }
   | _ -> failwith ("bad dgram " ^ s)
-let rec c18_steps (t : string list) : step list =
+(* goodbye packets of the implementation with the interface they really left on:
+   "<if|?>~<dest>~<answer section>" joined by ';' *)
+let goodbye_of_string (s : string) : packet =
+  match split_on '~' s with
+  | [ i; d; an ] ->
+    { p_dest = dest_of_string d; p_if = (if i = "?" then N0 else n_of_dec i); p_id = N0; p_flags = n_of_int 33792;
+      p_questions = []; p_answers = nlist an rr_of_string; p_additionals = [] }
+  | _ -> failwith ("bad goodbye " ^ s)
+let rec c18_steps_gb (t : string list) : (step * packet list) list =
   match t with
   | [] -> []
-  | "S" :: now :: os :: dgs :: calls :: rest ->
-    { st_now = n_of_dec now; st_os = (if os = "-" then None else Some (ifaces_of_string (if os = "none" then "-" else os)));
-      st_dgrams = (if dgs = "-" then [] else List.map dgram_of_string (split_on ';' dgs));
-      st_calls = (if calls = "-" then [] else List.map call_of_string (split_on '^' calls)) } :: c18_steps rest
+  | "S" :: now :: os :: dgs :: calls :: gb :: rest ->
+    ({ st_now = n_of_dec now; st_os = (if os = "-" then None else Some (ifaces_of_string (if os = "none" then "-" else os)));
+       st_dgrams = (if dgs = "-" then [] else List.map dgram_of_string (split_on ';' dgs));
+       st_calls = (if calls = "-" then [] else List.map call_of_string (split_on '^' calls)) },
+     (if gb = "-" then [] else List.map goodbye_of_string (split_on ';' gb))) :: c18_steps_gb rest
   | _ -> failwith "bad c18 case"
+let c18_steps (t : string list) : step list = List.map fst (c18_steps_gb t)
 
 let int_of_nn = int_of_n
 let string_of_obs_sets (l : obs list) : string =
   let ev = ref [] and tx = ref [] and br = ref [] in
   List.iter (fun o -> match o with
-    | OSent p -> tx := string_of_packet p :: !tx
+    | OSent p -> tx := string_of_packet18 p :: !tx
+    | OSentAny p -> tx := string_of_packet_any p :: !tx
     | OIpAdd a -> ev := ("add." ^ string_of_ip a) :: !ev
     | OIpDel a -> ev := ("del." ^ string_of_ip a) :: !ev
     | OFound (ty, i) -> br := ("found/" ^ hex_of_bytes ty ^ "/" ^ hex_of_bytes i) :: !br
@@ -201,8 +226,17 @@ let string_of_obs_sets (l : obs list) : string =
       let v6toks = List.sort_uniq compare (List.map (fun (a, i) -> string_of_ip a ^ "@" ^ string_of_int (int_of_nn i)) v6) in
       br := ("resolved/" ^ hex_of_bytes ty ^ "/" ^ hex_of_bytes i ^ "/" ^ hex_of_bytes host ^ "/" ^ dec_n port ^ "/"
              ^ String.concat "_" (List.sort compare (v4toks @ v6toks))) :: !br) l;
+  (* per instance only the last resolved / removed event of the iteration is kept (see c18.py) *)
+  let chrono = List.rev !br in
+  let key t = match split_on '/' t with k :: ty :: inst :: _ -> (k, ty ^ "/" ^ inst) | _ -> ("", t) in
+  let rec keep = function
+    | [] -> []
+    | t :: rest ->
+      let (k, id) = key t in
+      if k <> "found" && List.exists (fun u -> let (k', id') = key u in k' <> "found" && id' = id) rest
+      then keep rest else t :: keep rest in
   let j sep l = if l = [] then "-" else String.concat sep (List.sort compare l) in
-  Printf.sprintf "ev=%s tx=%s br=%s" (j "," !ev) (j "&" !tx) (j "," !br)
+  Printf.sprintf "ev=%s tx=%s br=%s" (j "," !ev) (j "&" !tx) (j "," (keep chrono))
 
 let c18_run (rest : string list) : obs list list =
   match rest with
@@ -211,8 +245,13 @@ let c18_run (rest : string list) : obs list list =
 
 let run_case (line : string) : string =
   match split_on ' ' line with
-  | "c06" :: rest -> String.concat " | " (List.map (fun q -> string_of_reaction (c06_react q)) (c06_queries rest))
-  | "c18" :: rest -> String.concat " | " (List.map string_of_obs_sets (c18_run rest))
+  | "c06" :: rest ->
+    let rs = List.map (fun q -> string_of_reaction (c06_react q)) (c06_queries rest) in
+    Printf.sprintf "answered=%d/%d %s" (List.length (List.filter (fun r -> r <> "none") rs)) (List.length rs)
+      (String.concat " | " rs)
+  | "c18" :: rest ->
+    let its = List.map string_of_obs_sets (c18_run rest) in
+    Printf.sprintf "iterations=%d %s" (List.length its) (String.concat " | " its)
   | _ -> "BADCASE"
 
 (* ---- monitors ----------------------------------------------------------------------------- *)
@@ -252,13 +291,94 @@ let run_monitor (id : string) (case : string list) (result : string) : string =
   match id, case with
   | "C06", "c06" :: rest ->
     let qs = c06_queries rest in
-    let obs = List.map String.trim (split_str " | " result) in
+    let result = (match String.index_opt result ' ' with Some i -> String.sub result (i + 1) (String.length result - i - 1) | None -> "") in
+    let obs = if result = "" then [] else List.map String.trim (split_str " | " result) in
     if List.length obs <> List.length qs then "FAIL wrong number of reactions" else
     let verdicts = List.mapi (fun i (q, o) ->
         let v = (try c06_verdict q (reaction_of_string o) with Failure m -> "unexplained(" ^ m ^ ")") in
         if v = "" then "" else Printf.sprintf "q%d:%s" i v) (List.combine qs obs) in
     let bad = List.filter (fun v -> v <> "") verdicts in
     if bad = [] then "PASS" else "FAIL " ^ String.concat " " bad
+  | "C18", "c18" :: t0 :: os :: rest ->
+    let os0 = ifaces_of_string os in
+    let steps = c18_steps_gb rest in
+    let result = (match String.index_opt result ' ' with Some i -> String.sub result (i + 1) (String.length result - i - 1) | None -> "") in
+    let its = List.map String.trim (split_str " | " result) in
+    let its = List.filter (fun s -> starts_with s "ev=") its in
+    if List.length its <> List.length steps then "FAIL wrong number of iterations" else
+    let parse_it (s : string) (gb : packet list) : obs list =
+      match split_on ' ' s with
+      | [ ev; tx; _br ] ->
+        let evs = nlist (after "ev=" ev) (fun e ->
+            if starts_with e "add." then OIpAdd (ip_of_string (String.sub e 4 (String.length e - 4)))
+            else OIpDel (ip_of_string (String.sub e 4 (String.length e - 4)))) in
+        let txs = if after "tx=" tx = "-" then [] else split_on '&' (after "tx=" tx) in
+        let pks = List.filter_map (fun t ->
+            if find_sub t ";if=*;" >= 0 then None
+            else
+              let t' = (let i = find_sub t ";if=?;" in
+                        if i < 0 then t else String.sub t 0 i ^ ";if=0;" ^ String.sub t (i + 6) (String.length t - i - 6)) in
+              match reaction_of_string t' with Some p -> Some (OSent p) | None -> None) txs in
+        evs @ pks @ List.map (fun p -> OSent p) gb
+      | _ -> failwith "bad iteration" in
+    let hist = List.map2 (fun (st, gb) s -> (st, parse_it s gb)) steps its in
+    ignore t0;
+    if chk_C18 os0 hist then "PASS"
+    else begin
+      (* locate what fails and classify it *)
+      let seen = ref os0 and cur = ref os0 and sels = ref [] and bad = ref [] in
+      let pushed_os : iface list list ref = ref [] in      (* OS table at the push of each selection *)
+      let rec last_matching (sl : selection list) (oss : iface list list) (e : iface) =
+        (* the last selection matching e and the OS table at its push *)
+        match sl, oss with
+        | s :: sl', o :: oss' ->
+          (match last_matching sl' oss' e with
+           | Some r -> Some r
+           | None -> if kind_matches (fst s) e then Some (s, o) else None)
+        | _, _ -> None in
+      let mem_iface e l = List.exists (fun x -> x = e) l in
+      List.iteri (fun k (st, os) ->
+          (match st.st_os with Some t -> cur := t | None -> ());
+          seen := add_seen !seen !cur;
+          let states = sel_states !sels !cur st.st_calls in
+          let final = List.nth states (List.length states - 1) in
+          let npush = List.length final - List.length !sels in
+          pushed_os := !pushed_os @ List.init npush (fun _ -> !cur);
+          List.iter (fun o ->
+              if not (obs_ok !seen !cur states o) then
+                bad := (k, (match o with
+                    | OSent p ->
+                      (* (1) the packet's interface is unselected now, but every entry of it was absent from
+                             the OS table when the selection that unselects it was made *)
+                      let v4 = (match p.p_dest with DMulticast b -> b | DUnicast (a, _) -> (match a with V4 _ -> true | _ -> false)) in
+                      let cands = List.filter (fun e -> e.i_index = p.p_if
+                                                        && (match e.i_addr.ia_ip with V4 _ -> v4 | V6 _ -> not v4)) !seen in
+                      let addr_fine = List.for_all (fun r -> match r.r_data with
+                          | RAddr oct -> List.exists (fun e -> e.i_index = p.p_if
+                                                              && valid_ip_on_intf (if List.length oct = 4 then V4 (n_of_octets oct) else V6 (n_of_octets oct)) e.i_addr) !seen
+                          | _ -> true) (p.p_answers @ p.p_additionals) in
+                      let excused = addr_fine && cands <> [] && List.for_all (fun e ->
+                          match last_matching final !pushed_os e with
+                          | Some ((_, false), o) -> not (mem_iface e o)
+                          | _ -> false) cands in
+                      (* (2) a goodbye that would be in order on another interface: a repeated goodbye that
+                             left through the interface the IPv4 socket was last pointed at *)
+                      let idxs = List.sort_uniq compare (List.map (fun e -> e.i_index) !seen) in
+                      let elsewhere = is_goodbye p
+                                      && List.exists (fun i -> i <> p.p_if && addrs_ok !seen { p with p_if = i }) idxs in
+                      (if excused then "selection-while-absent-" else if elsewhere then "goodbye-on-" else "packet-")
+                      ^ string_of_dest p.p_dest ^ "-if" ^ dec_n p.p_if
+                    | OIpAdd a -> "ipadd-" ^ string_of_ip a
+                    | OIpDel a -> "ipdel-" ^ string_of_ip a
+                    | _ -> "other")) :: !bad) os;
+          sels := final) hist;
+      let bad = List.rev !bad in
+      let cls w = if starts_with w "goodbye-on-" then "goodbye-resend-interface"
+        else if starts_with w "selection-while-absent-" then "selection-while-absent" else "" in
+      let classes = List.sort_uniq compare (List.map (fun (_, w) -> cls w) bad) in
+      (if List.mem "" classes then "FAIL " else "FAIL known=" ^ String.concat "+" classes ^ " ")
+      ^ String.concat " " (List.map (fun (k, w) -> Printf.sprintf "it%d:%s" k w) bad)
+    end
   | _ -> "BAD unknown monitor"
 
 let () = main_loop run_case run_monitor
